@@ -17,10 +17,11 @@ import (
 )
 
 type c15Case struct {
-	Rq        *Request `json:"request"`
-	FailSinks []int    `json:"fail_sinks,omitempty"`   // sink handle indices whose first send fails
-	FailReads []int    `json:"fail_sources,omitempty"` // source handle indices whose k-th read fails
-	ReadK     int      `json:"read_k,omitempty"`
+	Rq          *Request `json:"request"`
+	FailSinks   []int    `json:"fail_sinks,omitempty"`   // sink handle indices whose first send fails
+	FailReads   []int    `json:"fail_sources,omitempty"` // source handle indices whose k-th read fails
+	ReadK       int      `json:"read_k,omitempty"`
+	TimeoutLike bool     `json:"timeout_like,omitempty"` // failed sends look like OS timeouts
 }
 
 func genC15(rt *rapid.T) *c15Case {
@@ -78,6 +79,7 @@ func genC15(rt *rapid.T) *c15Case {
 		sort.Ints(c.FailSinks)
 		sort.Ints(c.FailReads)
 		c.ReadK = rapid.IntRange(1, 3).Draw(rt, "read_k")
+		c.TimeoutLike = rapid.Bool().Draw(rt, "timeout_like")
 	}
 	return c
 }
@@ -94,7 +96,13 @@ func checkC15(t *testing.T, c *c15Case, rec *Recorder) []Diff {
 	rq := *c.Rq
 	rq.Faults = nil
 	for _, h := range c.FailSinks {
-		rq.Faults = append(rq.Faults, Fault{Kind: "sink", Handle: h, Op: "WriteTo", K: 1, Class: "fatal"})
+		// a failed send may be a timeout of the operating system's (it then matches the standard deadline errors
+		// although nobody's context has ended)
+		cl := "fatal"
+		if c.TimeoutLike {
+			cl = "fatal-timeout"
+		}
+		rq.Faults = append(rq.Faults, Fault{Kind: "sink", Handle: h, Op: "WriteTo", K: 1, Class: cl})
 	}
 	k := c.ReadK
 	if k < 1 {
